@@ -823,3 +823,51 @@ impl<T> Queue<T> {
         unsafe { (*self.vec.get()).pop() }
     }
 }
+
+// Verification hooks: a read-only view of the collector state. Compiled only under
+// `--cfg gc_arena_verif`; never consulted by the collector itself.
+#[cfg(gc_arena_verif)]
+impl<T: Copy> Queue<T> {
+    fn verif_items(&self) -> Vec<T> {
+        unsafe { (*self.vec.get().cast_const()).clone() }
+    }
+}
+
+#[cfg(gc_arena_verif)]
+impl Context {
+    pub(crate) fn verif_snapshot(&self) -> crate::arena::VerifSnapshot {
+        fn color_code(c: GcColor) -> u8 {
+            match c {
+                GcColor::White => 0,
+                GcColor::WhiteWeak => 1,
+                GcColor::Gray => 2,
+                GcColor::Black => 3,
+            }
+        }
+        let addr = |p: GcPtr| p.as_ptr() as usize;
+        let mut all = Vec::new();
+        let mut cur = self.all.get();
+        while let Some(p) = cur {
+            if all.len() >= 100_000 {
+                break;
+            }
+            let h = p.header();
+            all.push((addr(p), color_code(h.color()), h.is_live(), h.needs_trace()));
+            cur = h.next();
+        }
+        crate::arena::VerifSnapshot {
+            phase: match self.phase {
+                Phase::Mark => 1,
+                Phase::Sweep => 2,
+                Phase::Sleep => 0,
+                Phase::Drop => 3,
+            },
+            root_needs_trace: self.root_needs_trace,
+            all,
+            gray: self.gray.verif_items().into_iter().map(addr).collect(),
+            gray_again: self.gray_again.verif_items().into_iter().map(addr).collect(),
+            sweep: self.sweep.map(addr),
+            sweep_prev: self.sweep_prev.get().map(addr),
+        }
+    }
+}
